@@ -73,6 +73,11 @@ def eligible_faults(df, date):
             for r in range(n):
                 if sizes.iloc[r] >= 2:
                     out.append(("hh-input-varies", c, r))
+                    if df[c].dtype.kind == "f":
+                        # one member without the value (a left-merged household file), and the smallest
+                        # possible deviation
+                        out.append(("hh-input-varies-nan", c, r))
+                        out.append(("hh-input-varies-ulp", c, r))
     for r in range(n):
         if df["p_id_ehepartner"].iloc[r] >= 0:
             out.append(("contradictory-joint-assessment", "gemeinsam_veranlagt", r))
@@ -114,6 +119,12 @@ def inject(df, fault):
             d.loc[d.index[r], col] = not bool(d[col].iloc[r])
         else:
             d.loc[d.index[r], col] = d[col].iloc[r] + 1
+        return d
+    if cls == "hh-input-varies-nan":
+        d.loc[d.index[r], col] = np.nan
+        return d
+    if cls == "hh-input-varies-ulp":
+        d.loc[d.index[r], col] = np.nextafter(float(d[col].iloc[r]), -np.inf)
         return d
     if cls == "contradictory-joint-assessment":
         d.loc[d.index[r], col] = not bool(d[col].iloc[r])
@@ -182,7 +193,7 @@ def check_faults(df, date, faults, sh=None):
                 sh.classes[f"F-rejected-with:{exc}"] += 1
         if not ok:
             key = f"accepted:{label}:{col}" if cls in ("text", "fractional-in-int", "nan-in-int", "two-in-bool", "nan-in-bool", "bool-for-float",
-                                                       "dropped-required-column", "hh-input-varies", "fk-absent", "fk-self") else f"accepted:{label}"
+                                                       "dropped-required-column", "hh-input-varies", "hh-input-varies-nan", "hh-input-varies-ulp", "fk-absent", "fk-self") else f"accepted:{label}"
             fails.append(core.Failure(key, f"{date}: data with fault {fault} are simulated instead of rejected",
                                       popcheck.payload(df, date, kind="F", fault=[list(f) if isinstance(f, tuple) else f for f in fault])))
     return fails
